@@ -242,18 +242,15 @@ func c11ZmqRun(e *c11LibEnv, c c11ZmqCase) (classes []string, nontrivial bool, o
 			}
 		}
 		e.rm.RemoveOldRegistrations()
-		// the goroutine started for a connecting transport must end (its Connect fails at once)
-		deadline := time.Now().Add(c11h.Bound / 2)
-		for e.cs.finished.Load() < wantConnect && time.Now().Before(deadline) {
+		// the goroutine started for a connecting transport must end (its Connect fails at once);
+		// if it never does, the Guard's watch reports the hang
+		for e.cs.finished.Load() < wantConnect {
 			time.Sleep(50 * time.Microsecond)
 		}
 	})
-	if !o.Hung && o.Panic == nil && e.cs.finished.Load() < wantConnect {
-		o.Hung = true
-	}
-	if o.Hung {
+	if o.Hung || o.Inconclusive {
 		// the abandoned goroutine may still be writing to cls
-		return []string{"hung"}, true, o
+		return []string{"gave-up-waiting"}, true, o
 	}
 	if wantConnect > 0 {
 		cls["connecting-transport-started"] = true
